@@ -327,6 +327,7 @@ type Fin struct {
 	Prior    string   `json:"prior,omitempty"` // the chain value already ran count | noop_updates | find before ...
 	Clone    string   `json:"clone,omitempty"` // ... it was derived again through session | withctx | debug
 	Late     bool     `json:"late,omitempty"`  // Unscoped is called after the prior use, not before
+	KeyPay   string   `json:"keypay,omitempty"` // the update payload also names the primary key: "map" | "struct" (condition-free chains only)
 }
 
 // Run executes chain+finisher on a fresh chain from e.DB and observes.
@@ -416,7 +417,24 @@ func (e *Env) Run(chain []Unit, fin Fin, soft bool) (Obs, error) {
 		res = tx.Model(model(fin.PK)).Update("m", 7)
 		o.N = res.RowsAffected
 	case "updates":
-		res = tx.Model(model(fin.PK)).Updates(map[string]interface{}{"m": 7})
+		// a payload that names the primary key is still not a condition (only used when the chain has none:
+		// with conditions it would move several rows onto one key)
+		condFree := fin.PK == 0 && len(inline) == 0
+		for _, u := range chain {
+			if u.Form != "empty" {
+				condFree = false
+			}
+		}
+		switch {
+		case fin.KeyPay == "map" && condFree:
+			res = tx.Model(model(0)).Updates(map[string]interface{}{"id": 999, "m": 7})
+		case fin.KeyPay == "struct" && condFree:
+			pay := newModel(soft, 999)
+			reflect.ValueOf(pay).Elem().FieldByName("M").SetInt(7)
+			res = tx.Model(model(0)).Updates(pay)
+		default:
+			res = tx.Model(model(fin.PK)).Updates(map[string]interface{}{"m": 7})
+		}
 		o.N = res.RowsAffected
 	case "updatecol":
 		res = tx.Model(model(fin.PK)).UpdateColumn("m", 7)
